@@ -488,6 +488,16 @@ def cost_monotone(prog: Program) -> RuleResult:
 # domains
 
 
+def _only_infinity_tests(part: ast.AST) -> bool:
+    if isinstance(part, ast.UnaryOp) and isinstance(part.op, ast.Not):
+        return _only_infinity_tests(part.operand)
+    if isinstance(part, ast.BoolOp):
+        return all(_only_infinity_tests(v) for v in part.values)
+    if isinstance(part, ast.Call):
+        return (isinstance(part.func, ast.Attribute) and part.func.attr == "is_infinite") or dotted(part.func) == "is_infinite"
+    return False
+
+
 def _site_domain(rec: cm.Recurrence, site: cm.CandidateSite) -> Tuple[str, List[str]]:
     if "domain" not in site.__dict__:
         site.__dict__["domain"] = _site_domain_uncached(rec, site)
@@ -509,6 +519,8 @@ def _site_domain_uncached(rec: cm.Recurrence, site: cm.CandidateSite) -> Tuple[s
             names = {n.id for n in ast.walk(part) if isinstance(n, ast.Name)}
             if x not in names:
                 continue
+            if _only_infinity_tests(part):
+                continue  # skipping infinite sub-problems does not restrict the species range (CANDIDATE-GUARDS judges the polarity)
             if (
                 isinstance(part, ast.Call)
                 and isinstance(part.func, ast.Attribute)
